@@ -20,17 +20,52 @@ META = {
         "exactly one of result/error; 1.0: result,error,id with null on the unused member; error object code,message "
         "(+data iff not None); jsonrpc value str(float(version))); C02.5 every Fault site has an integer literal code "
         "and a string-typed message; C02.6 the default JSON backend is called with ASCII escaping on, which is what makes the byte "
-        "conversion of the reply in do_POST / the CGI handler total (it runs outside any catch-all)."),
+        "conversion of the reply in do_POST / the CGI handler total (it runs outside any catch-all); C02.7 the call graph reachable "
+        "from the serving entry points has no cycle except the structural recursion of jsonclass over sub-values (a batch entry "
+        "is never re-dispatched as a batch), and every member appended to a batch reply is one response object: <fault>.dump() or "
+        "a value produced per entry by _marshaled_single_dispatch / validate_request (never by a function that treats a list as a batch)."),
     "does_not_decide": "termination (recursion depth of nested payloads), behaviour of the JSON backend on exotic "
                        "text, the NaN/Infinity exclusion.",
     "rules": {"C02.1": "E4 type narrowing / may-raise abstract interpretation, interprocedural by summaries",
               "C02.2": "provenance of return values; event-count exploration of do_POST",
               "C02.3": "who-may-construct scan", "C02.4": "shape interpreter (E7) vs spec A.2",
-              "C02.5": "literal folding at Fault sites", "C02.6": "call-site keyword scan in jsonlib"},
+              "C02.5": "literal folding at Fault sites", "C02.6": "call-site keyword scan in jsonlib",
+              "C02.7": "strongly connected components of the serving call graph; provenance of the appended batch members"},
     "assumptions": ["truthiness, ==, str(), isinstance, type() and str.format are total on every value in the domain",
                     "Config.version is a number; logging calls do not raise",
                     "a bounded notification queue raising queue.Full after its timeout is outside the domain"],
 }
+
+
+def _cycles(edges):
+    """strongly connected components with at least one edge inside (Tarjan, iterative enough for ~30 nodes)"""
+    index, low, stack, on, out, counter = {}, {}, [], set(), [], [0]
+
+    def sc(v):
+        index[v] = low[v] = counter[0]
+        counter[0] += 1
+        stack.append(v)
+        on.add(v)
+        for w in sorted(edges.get(v, ())):
+            if w not in index:
+                sc(w)
+                low[v] = min(low[v], low[w])
+            elif w in on:
+                low[v] = min(low[v], index[w])
+        if low[v] == index[v]:
+            comp = []
+            while True:
+                w = stack.pop()
+                on.discard(w)
+                comp.append(w)
+                if w == v:
+                    break
+            if len(comp) > 1 or v in edges.get(v, ()):
+                out.append(comp)
+    for v in sorted(edges):
+        if v not in index:
+            sc(v)
+    return out
 
 
 def check(ck):
@@ -188,6 +223,38 @@ def check(ck):
               isinstance(x.value, ast.Tuple)]
     if n6 < 1 and not direct:
         raise AnalysisError("anchor vanished: json.dumps in jsonlib")
+
+    # ---- C02.7 termination structure / batch members --------------------------------------------------------------
+    cl = common.closure(prog, common.serving_roots(prog))
+    edges = dict((fq, set(r.fq for (_n, _c, r) in common.callees(prog, f_)) & set(cl)) for fq, f_ in cl.items())
+    for comp in _cycles(edges):
+        structural = all(x.startswith("jsonclass.") for x in comp)
+        f0 = cl[sorted(comp)[0]]
+        ck.require(structural, "C02.7", "serving call graph: cycle %s" % " -> ".join(sorted(comp)), "structural recursion over sub-values (jsonclass)",
+                   "the serving code re-enters %s recursively: a request value nested inside itself (e.g. an array inside a batch array) is "
+                   "processed again as a request / batch, replies are no longer one object or a flat array of objects and the depth of the "
+                   "recursion is chosen by the client" % ", ".join(sorted(comp)), q.loc(f0, f0.node))
+    ck.ok("C02.7", "serving call graph", "%d functions, %d call edges; no cycle outside jsonclass" % (len(cl), sum(len(v) for v in edges.values())), "")
+    fu = prog.func(SRV, DISP + "._unmarshaled_dispatch")
+    gu = cfg_of(fu)
+    apps = [(n, c) for n in gu.live_nodes() for c in node_calls(n) if isinstance(c.func, ast.Attribute) and c.func.attr in ("append", "extend", "insert")]
+    if not apps:
+        raise AnalysisError("anchor vanished: batch assembly (append) in _unmarshaled_dispatch")
+    for (n, c) in apps:
+        okk = c.func.attr == "append" and len(c.args) == 1
+        if okk:
+            for a in prov.value_alts(prov.origin(gu, n, c.args[0])):
+                single = a[0] == "call" and a[1] == ("attr", ("param", "self"), "_marshaled_single_dispatch")
+                dumped = a[0] == "call" and a[1][0] == "attr" and a[1][2] == "dump" and not a[2]
+                # a validate_request(...) value can only flow here on the paths where it was not a Fault and has been replaced
+                # (path-insensitive provenance keeps it as an alternative): a per-entry producer as well
+                validated = a[0] == "call" and a[1] == ("global", "validate_request")
+                okk = okk and (single or dumped or validated)
+        ck.require(okk, "C02.7", "%s: `%s`" % (q.fn(fu), dump(c)[:70]), "one response object per member",
+                   "a batch reply member is %s: not the dump() of a Fault nor the reply of _marshaled_single_dispatch for one entry (an array "
+                   "or foreign value can become a member of the reply array)" % prov.show(prov.origin(gu, n, c.args[0]))[:90] if c.args else "nothing",
+                   q.loc(fu, n))
+    ck.floor("C02.7", 4)
 
     # ---- C02.5 error typing ---------------------------------------------------------------------------
     n5 = 0
